@@ -236,6 +236,7 @@ m("empty-format-command-revert", "_config.py", 'tool_config.get("format-command"
 m("repr-is-expression-revert", "_code_repr.py", "    if not is_expression(result):\n        return real_repr(HasRepr(type(obj), result))\n", "    try:\n        ast.parse(result)\n    except SyntaxError:\n        return real_repr(HasRepr(type(obj), result))\n", ["C01", "C18"], "revert: reprs that parse as code + comment / statements are written verbatim")
 m("dataclass-init-false-revert", "_adapter/generic_call_adapter.py", "            if field.repr and field.init:\n                field_value = getattr(value, field.name)\n                is_default = False\n\n                if field.default != MISSING", "            if field.repr:\n                field_value = getattr(value, field.name)\n                is_default = False\n\n                if field.default != MISSING", ["C01", "C02"], "revert: dataclass init=False fields written as constructor arguments")
 m("attrs-alias-revert", "_adapter/generic_call_adapter.py", "                    kwargs[cls.argument_name(field)] = Argument(", "                    kwargs[field.name] = Argument(", ["C01", "C02"], "revert: private attrs attributes written as _name=")
+m("in-unmanaged-update-revert", "_snapshot/collection_value.py", "            if isinstance(old_value, Unmanaged) or isinstance(old_node, ast.JoinedStr):\n                # Is(...) and f-strings are not managed by inline-snapshot\n                continue\n", "", ["C10"], "revert: Is()/f-string members of `in` snapshots are replaced by update")
 m("run-inline-external-import-only", "testing/_example.py", '                    if used_hasrepr(tree):\n                        required_imports.append("HasRepr")', '                    if used_hasrepr(tree) and used_externals(tree):\n                        required_imports.append("HasRepr")', ["C19"], "HasRepr import only added together with external")
 
 
